@@ -380,7 +380,34 @@ def run(chk):
         extra=[("$R.fullmatch($M)", True), ("$R.fullmatch(version) is None", False)])
     # chunked body
     rej("C01.rej.chunkline", pp, [([("pos > self._max_line_size", True), ("line_len > self._max_line_size", True)], True, "chunk-size line too long")], ALL, "chunk-size line too long")
-    rej("C01.rej.chunkext", pp, [("b'\\n' in chunk[$I:pos]", True, "LF inside chunk extension")], ALL, "bare LF in chunk extension", extra=[("pos > self._max_line_size", False), ("line_len > self._max_line_size", False), ("$I < 0", False)])
+    # chunk-ext = *( BWS ";" BWS token [ "=" ( token / quoted-string ) ] ): no control byte except HTAB can occur in it.  The guard is either the
+    # historical `b"\\n" in ext` (LF only: known to let NUL/CR/VT/DEL through) or a byte-class search whose class is checked here.
+    ext_ok = None
+    for r, cname in K.raises_in(pp.node):
+        if cname not in errs:
+            continue
+        for l in PC.units(PC.pc(r, raw=True)):
+            if not l.pos:
+                continue
+            b = M.match_text("$R.search($E)", l.text) or M.match_text("re.search($R, $E)", l.text)
+            if b is not None and "chunk[" in norm.raw(b["E"]):
+                try:
+                    rx = folder.eval(mod, b["R"])
+                    got = R.single_char_set(R.lang(rx.pattern, rx.flags, "search"))
+                except (NotConst, AttributeError, R.Unsupported) as e:
+                    chk.analysis_error(f"C01.rej.chunkext: cannot fold the chunk-extension pattern: {e}")
+                    continue
+                want = (set(range(0, 32)) | {127}) - {9}
+                ext_ok = (r, want <= got and 9 not in got and not (got & set(range(33, 127))), sorted(want - got))
+            elif M.match_text("b'\\n' in chunk[$I:$J]", l.text) is not None and ext_ok is None:
+                ext_ok = (r, False, sorted((set(range(0, 32)) | {127}) - {9, 10}))
+    if ext_ok is None:
+        chk.violation("C01.rej.chunkext", pp, "chunk-extension", "if <CTL class>.search(ext): raise TransferEncodingError", "required rejection missing: control bytes / bare LF inside a chunk extension are accepted")
+    elif ext_ok[1]:
+        chk.ok("C01.rej.chunkext", ext_ok[0], "a chunk extension containing any control byte other than HTAB (LF included) is refused")
+    else:
+        chk.violation("C01.rej.chunkext", ext_ok[0], "chunk-extension guard", f"also refuse code points {ext_ok[2]}",
+                      "only part of the control bytes is refused inside a chunk extension (`3;\\x00`, `3;a\\rb`, `3;a=\\x7f` are accepted, the body is delivered and the next pipelined request dispatched) although the same bytes in a field value get 400 and llhttp rejects them")
     rej("C01.rej.chunkhex", pp, [("re.fullmatch(HEXDIGITS, size_b)", False, "size is not hex")], ALL, "malformed chunk size", extra=[("pos > self._max_line_size", False), ("line_len > self._max_line_size", False)])
     n_lf = 0
     for n2, cls in K.raises_in(pp.node):
@@ -508,6 +535,17 @@ def run(chk):
         chk.ok("C01.rej.target", tgt_ok[0], "a request-target containing any control character (00-1F, 7F) is refused before the URL is built")
     else:
         chk.violation("C01.rej.target", tgt_ok[0], "request-target pattern", f"missing code points {tgt_ok[2]}", "some control characters are still accepted in the request-target")
+    # ------------------------------------------------------------------ C01.te10
+    # RFC 9112 6.1: an HTTP/1.0 request with Transfer-Encoding has faulty framing (a 1.0 hop may have framed it by other rules): whatever the
+    # Connection header says, nothing may follow it on the connection
+    closes = [a for a in ast.walk(pm.node) if isinstance(a, ast.Assign) and norm.raw(a) == "close = True"]
+    te10 = [a for a in closes if any("TRANSFER_ENCODING" in l.text and l.pos for c in PC.pc(a, raw=True) for l in c) and any("HttpVersion1" in l.text for c in PC.pc(a, raw=True) for l in c)]
+    rets = [r for r in ast.walk(pm.node) if isinstance(r, ast.Return)]
+    if te10 and rets and all(a.lineno < rets[-1].lineno for a in te10) and not any(isinstance(x, ast.Assign) and norm.raw(x.targets[0]) == "close" and x.lineno > te10[-1].lineno for x in ast.walk(pm.node)):
+        chk.ok("C01.te10", te10[0], "an HTTP/1.0 request carrying Transfer-Encoding closes the connection, whatever its Connection header says")
+    else:
+        chk.violation("C01.te10", pm, "close", "if version_o < HttpVersion11 and hdrs.TRANSFER_ENCODING in headers: close = True",
+                      "an HTTP/1.0 request with `Transfer-Encoding: chunked` and `Connection: keep-alive` is answered `Connection: keep-alive` and the bytes after it are dispatched as the next request: a 1.0 intermediary that framed the message by Content-Length / close disagrees about where it ends (request smuggling)")
     # ------------------------------------------------------------------ C01.rej.host
     # what BaseRequest.url builds lazily from the Host header (URL.build(authority=...)) the parser validates eagerly: an invalid Host is the
     # client's error (400), not a ValueError in whatever handler or middleware first touches request.url (500)
